@@ -1,3 +1,3 @@
 SPECIFICATION Spec
-INVARIANTS KeyOK NetworkOK OkFlagOK RoundTripOK LinearOK ParentOK KidsOK DecodeOK
+INVARIANTS KeyOK NetworkOK OkFlagOK RoundTripOK LinearOK ParentOK KidsOK KidsEncodableOK MustOK DecodeOK
 CHECK_DEADLOCK FALSE
